@@ -71,9 +71,6 @@ def scenarios(name, cases, priors, offset=0):
     return out
 
 
-CHUNK = 10 * BATCH
-
-
 def _chunk_job(args):
     """Worker: drive one chunk of scenarios on the real library, write the traces, have TLC validate them."""
     ix, scns, seed, work = args
@@ -207,7 +204,8 @@ def main() -> int:
     t_tlc = time.time() - t0
     seed = json.load(open(replay)).get("seed", E.seed()) if replay else E.seed()
     t0 = time.time()
-    jobs = [(n, scns[i:i + CHUNK], seed, work) for n, i in enumerate(range(0, len(scns), CHUNK))]
+    chunk = BATCH * max(10, min(30, len(scns) // (BATCH * 48)))        # one JVM start per chunk: bigger chunks for the big tier
+    jobs = [(n, scns[i:i + chunk], seed, work) for n, i in enumerate(range(0, len(scns), chunk))]
     res = E.pmap(_chunk_job, jobs, procs=16, chunk=1)
     t_run = time.time() - t0
     used = sorted({c for r in res for c in r["used"]})
